@@ -263,3 +263,20 @@ package cache
 //@   ensures calls("(*internal/cache.Cache).CompareAndSwap") <= 1
 //@   assert at call (*internal/cache.Cache).CompareAndSwap#1: arg1 == key && dyntype(arg2, *CacheEntry) && as(arg2, *CacheEntry) == expected && expected != nil
 //@   assert at call (*internal/cache.Cache).CompareAndSwap#2: arg1 == key && dyntype(arg2, *CacheEntry) && as(arg2, *CacheEntry) == expected && expected != nil
+//@
+//@ # ---- C12: a failure is offered to the shared failure cache only when the request tree has no request-local
+//@ # cause: no effective context error (cancellation / elapsed deadline), not a best-effort branch, no latched
+//@ # recursion-budget rejection, no request-local attempt failure for this response
+//@ func cacheableResolutionFailure
+//@   ensures result ==> lastret("internal/contextutil.EffectiveError") == nil
+//@   ensures result ==> !lastret("middleware.IsBestEffortRecursionWork")
+//@   ensures result ==> lastret("middleware.RecursionWorkEnforcementError") == nil
+//@   ensures result ==> lastret("middleware.RequestLocalFailureForResponse") == nil
+//@   ensures result ==> calls("internal/contextutil.EffectiveError") == 1 && calls("middleware.IsBestEffortRecursionWork") == 1 && calls("middleware.RecursionWorkEnforcementError") == 1 && calls("middleware.RequestLocalFailureForResponse") == 1
+//@ # the response writer records a failure in the shared failure cache only behind that gate
+//@ func (*ResponseWriter).WriteMsg
+//@   abstract
+//@   nosafety all pre
+//@   assert at call (*middleware/cache.Store).RecordFailure#1: lastret("middleware/cache.cacheableResolutionFailure") && arg1 == lastret("(*middleware/cache.ResponseWriter).recursionWorkFailure") || arg1 == res
+//@   assert at call (*middleware/cache.Store).RecordFailure#1: lastret("middleware/cache.cacheableResolutionFailure")
+//@   assert at call (*middleware/cache.Store).RecordFailure#2: lastret("middleware/cache.cacheableResolutionFailure")
